@@ -312,7 +312,14 @@ Scenario gen_c18(uint64_t seed, uint64_t index, bool relaxed) {
 		types.push_back(ty);
 	}
 	std::vector<Item> items;
+	// one input may be standard input (-x LANG - -x none); the terminal behind it may stay open for ever
+	int dash = -1;
+	if (r.coin(1, 5)) { int cand = (int)r.below((uint32_t)c.ninputs); if (TYPES[types[cand]].xlang) dash = cand; }
+	if (dash >= 0) sc.stdin_stays_open = !sc.stdin_closed && r.coin(1, 2);
+	// the caller may have SIGTERM ignored or blocked; children inherit both through posix_spawn
+	if (r.coin(1, 8)) sc.sigterm_inherited = 1 + (int)r.below(2);
 	for (int i = 0; i < c.ninputs; i++) {
+		if (i == dash) { items.push_back({"-x", TYPES[types[i]].xlang, "-", "-x", "none"}); continue; }
 		std::string nm = "in" + std::to_string(i) + TYPES[types[i]].suffix;
 		items.push_back({nm});
 		sc.files.emplace_back(nm, (int)r.below(6));
